@@ -40,6 +40,9 @@ class RealLife:
         tree = rp.tokenize(project["version_pattern"])
         ops = []
         n = rng.randint(1, 12)
+        if rng.random() < 0.5:
+            # a maintenance branch created before any bump; switching to it later means "older checkout, newer tags elsewhere"
+            ops.append({"op": "actor_create_branch", "name": "maint"})
         while len(ops) < n:
             r = rng.random()
             if r < 0.62:
@@ -57,7 +60,7 @@ class RealLife:
             elif r < 0.86:
                 ops.append({"op": "actor_unrelated_commit"})
             else:
-                ops.append({"op": "actor_switch_branch", "name": rng.choice(["feature1", "feature2", "main", "hotfix"])})
+                ops.append({"op": "actor_switch_branch", "name": rng.choice(["feature1", "maint", "maint", "main", "main", "hotfix"])})
         return {"project": project, "ops": ops}
 
     def run(self, case, ctx):
@@ -90,6 +93,11 @@ class RealLife:
                 rg.git("commit", "-q", "-m", "actor: unrelated work %d" % step, "--", "unrelated_notes.txt")
                 ctx.event("actor_unrelated_commit")
                 ctx.probe("actor_unrelated_commit")
+                continue
+            if kind == "actor_create_branch":
+                rg.git("branch", op["name"])
+                branch_ver[op["name"]] = branch_ver[cur_branch]
+                ctx.event("create_branch", op["name"])
                 continue
             if kind == "actor_commit_all":
                 rg.commit_all("actor: commit everything %d" % step)
@@ -199,6 +207,8 @@ class RealLife:
                 break
             new_state = states[0]
             # (i)+(ii) files
+            if w.clock is not None:
+                w.clock = clock
             nv = len(ctx.violations)
             ok = w.walk(ctx, {p: d for p, d in res.after.items() if p != "unrelated_notes.txt"}, new_state, new, st_branch,
                         text_branch, facts)
